@@ -40,6 +40,8 @@ func engineMain(prop, tier string, seed uint64, out, replay string) error {
 		scens = genC05(r, tier, st)
 	case "C17":
 		scens = genC17(r, tier, st)
+	case "C06", "C07", "C08", "C09", "C11":
+		scens = genBatch(r, tier, prop, st)
 	case "C03":
 		scens = genC03(r, tier, st)
 	case "C10":
@@ -58,6 +60,7 @@ func engineEmit(prop, out string, scens []taggedScen, st *stats) error {
 		if i%64 == 63 {
 			runtime.GC()
 		}
+		noteProgress(out, i, ts)
 		obs := runEngine(ts.sc)
 		c := ECase{ID: i, Scen: ts.sc, Obs: obs, Tags: ts.tags}
 		jl = append(jl, c)
@@ -85,8 +88,21 @@ func engineEmit(prop, out string, scens []taggedScen, st *stats) error {
 		if len(st.Samples) < 3 && ts.nontrivial {
 			st.Samples = append(st.Samples, c)
 		}
+		hung := false
+		for _, run := range obs.Runs {
+			if run.Timeout {
+				hung = true
+			}
+		}
+		if hung {
+			// goroutines of a run that never returned are still around and would disturb every
+			// later scenario: judge what was run so far, the hung scenario included
+			st.Extra["aborted_after_timeout_at"] = i
+			break
+		}
 	}
-	st.Evaluations = len(scens)
+	st.Evaluations = len(cases)
+	st.Extra["forced_releases"] = forcedReleases
 	controls := engineControls(jl)
 	st.Controls = len(controls)
 	n, err := writeShards(out, prop, engineImports(prop),
@@ -392,5 +408,15 @@ func genC18(r *rng, tier string, st *stats) []taggedScen {
 }
 
 func engineImports(prop string) string {
-	return "Base Script FlowTable Engine Flatten EngineCorr SpecC18 Lifecycle SpecEngine SpecRoute"
+	return "Base Script FlowTable Engine Flatten EngineCorr SpecC18 Lifecycle SpecEngine SpecRoute SpecBatch"
+}
+
+// noteProgress records the scenario about to run, so that a crash of the process (a fatal Go
+// error inside the implementation cannot be recovered) still names a concrete input.
+func noteProgress(out string, i int, ts taggedScen) {
+	if out == "" {
+		return
+	}
+	b, _ := json.Marshal(map[string]any{"id": i, "scen": ts.sc, "tags": ts.tags})
+	os.WriteFile(filepath.Join(out, "progress.json"), b, 0o644)
 }
